@@ -1,1 +1,2 @@
 //! harness group hdns: one binary per property under src/bin/.
+pub mod dnssrv;
